@@ -9,8 +9,9 @@ import os, subprocess, sys, json, time, hashlib, zlib, struct, tempfile, shutil
 ROOT = os.path.dirname(os.path.dirname(os.path.abspath(__file__)))
 BUILD = os.path.join(ROOT, 'build')
 MODELRUN = os.path.join(BUILD, 'ocaml', 'modelrun')
-LZRS_DEV = os.path.join(BUILD, 'harness-target', 'debug', 'lzrs')
-LZRS_REL = os.path.join(BUILD, 'harness-target', 'release', 'lzrs')
+_TGT = os.environ.get('LZ_ALT_TARGET') or os.path.join(BUILD, 'harness-target')
+LZRS_DEV = os.path.join(_TGT, 'debug', 'lzrs')
+LZRS_REL = os.path.join(_TGT, 'release', 'lzrs')
 NCPU = 16
 ALL_ONES = 0xFFFFFFFFFFFFFFFF
 
